@@ -229,7 +229,7 @@ Proof.
     destruct (negb (se =? p_sess p)); [inv_pair H; apply post_of; auto; lia|].
     destruct (hs_eqb (p_hs p) HsStoredAck && (t =? p_tok p) && (m =? p_pmid p)) eqn:Hm.
     + assert (Hhs : p_hs p = HsStoredAck) by (destruct (p_hs p); cbn in Hm; congruence).
-      set (s1 := mkP _ _ _ _ _ _ _ _ _ HsIdle 0 0 0 false _ _ _ _ _) in H.
+      set (s1 := mkP _ _ _ _ _ _ _ _ _ _ HsIdle 0 0 0 false _ _ _ _ _) in H.
       destruct (p_allow s1) as [s2 o2] eqn:Hal. inv_pair H.
       assert (Hlog : logat (p_log p) (p_pseq p) (p_pmid p)).
       { destruct I as [_ _ _ _ Hx]. destruct (Hx Hf) as [Hy|[Hy|[_ Hy]]]; [congruence|congruence|exact Hy]. }
